@@ -450,3 +450,8 @@ package wire
 //@ func (f *StreamFrame) PutBack
 //@   trusted returns the frame to the sync.Pool (pool state is not modelled)
 //@   modifies nothing
+
+//@ func ShortHeaderLen
+//@   props C10
+//@   ensures result == 1 + dest.l + pnLen
+//@   modifies nothing
